@@ -52,6 +52,8 @@ def tasks(tier, seed):
     for P in (1, 2, 3, 5, 16):
         for k in (1, 2):
             add("search", 4, [], k, P, rnd.choice(["exploitability", "l1_norm"]), 1)
+    for K in fam3:                        # "for any game": integer-valued games of any class
+        add("search", 3, K, 3 - len(K), 2, "exploitability", 2, anyclass=True)
     fam4, _ = F.family(4, tier, seed)
     for K in F.sample([x for x in fam4 if 1 <= len(x) <= 7], 16 if tier == "thorough" else 6, seed, "c11s4"):
         add("search", 4, K, 3 if tier == "thorough" else 2, rnd.choice([2, 3, 4, 5, 7]), "exploitability", 1)
